@@ -27,7 +27,20 @@ type encSpec struct {
 	bytes func(args []*sym.E) *sym.E
 }
 
-func tk(tag *sym.E) *sym.E { return sym.Fn("TK", tag) }
+// tk is the size of a field key; for a constant field number it is folded
+// (varint length of number<<3, the definition of SizeOfTagKey).
+func tk(tag *sym.E) *sym.E {
+	if tag.K == sym.KConst && tag.N > 0 {
+		v := uint64(tag.N) << 3
+		n := int64(1)
+		for v >= 0x80 {
+			v >>= 7
+			n++
+		}
+		return sym.Const(n)
+	}
+	return sym.Fn("TK", tag)
+}
 func sv(x *sym.E) *sym.E   { return sym.Fn("SV", x) }
 func sz(x *sym.E) *sym.E   { return sym.Fn("SZ", x) }
 func ext(kind string, x *sym.E) *sym.E {
